@@ -1112,3 +1112,183 @@ Proof.
       split; [reflexivity|]. split; [repeat split; assumption|].
       symmetry. apply negb_true_iff. apply N.eqb_neq. exact Z.
 Qed.
+
+Lemma run_from_rel c U : cfg_ok c -> c_mode c = MOff -> inj_on U -> forall ops w st,
+  winv c w -> next w + N.of_nat (count_stores ops) * (ns_of c + hsz c) <= lim c ->
+  (forall n, In n (names_of ops) -> In n U) ->
+  rel U (bt w) (s_map st) -> s_loaded st = negb (loaded_hdr (bt w) =? 0) ->
+  snd (run_from c w ops) = snd (spec_run_from (max_records (ns_of c)) st ops)
+  /\ rel U (bt (fst (run_from c w ops))) (s_map (fst (spec_run_from (max_records (ns_of c)) st ops))).
+Proof.
+  intros Hc Hm Hinj. induction ops as [|o ops IH]; intros w st I B HU R HL; cbn [run_from spec_run_from fst snd].
+  - split; [reflexivity|exact R].
+  - assert (Hb : o = OStoreLoad -> next w < lim c).
+    { intros ->. cbn [count_stores is_store] in B. unfold hsz, hdr_size in *. lia. }
+    assert (HU1 : forall n, In n (op_names o) -> In n U).
+    { intros n A. apply HU. unfold names_of. cbn [flat_map]. apply in_or_app. left. exact A. }
+    assert (HU2 : forall n, In n (names_of ops) -> In n U).
+    { intros n A. apply HU. unfold names_of. cbn [flat_map]. apply in_or_app. right. exact A. }
+    pose proof (step_rel c U w st o Hc Hm I Hb Hinj HU1 R HL) as X.
+    pose proof (step_winv c w o Hc Hm I Hb) as I1.
+    pose proof (step_next c w o Hc Hm I Hb) as N1.
+    destruct (step c w o) as [w1 r1]. destruct (spec_step (max_records (ns_of c)) st o) as [st1 r2].
+    destruct X as (X1 & X2 & X3). cbn [fst] in *.
+    assert (B1 : next w1 + N.of_nat (count_stores ops) * (ns_of c + hsz c) <= lim c).
+    { rewrite N1. cbn [count_stores] in B. destruct (is_store o); lia. }
+    specialize (IH w1 st1 I1 B1 HU2 X2 X3).
+    destruct (run_from c w1 ops) as [w2 rs2]. destruct (spec_run_from (max_records (ns_of c)) st1 ops) as [st2 rs3].
+    cbn [fst snd] in *. destruct IH as [IH1 IH2]. subst. split; [reflexivity|exact IH2].
+Qed.
+
+Lemma has_collision_false (ns : list bytes) : has_collision ns = false -> inj_on ns.
+Proof.
+  unfold has_collision, inj_on. intros H a b Ha Hb E.
+  destruct (bytes_eqb a b) eqn:Eab; [apply bytes_eqb_eq; exact Eab|]. exfalso.
+  assert (X : existsb (fun x => existsb (fun y => negb (bytes_eqb (fst x) (fst y)) && (snd x =? snd y))
+                  (map (fun n => (n, jenkins n)) ns)) (map (fun n => (n, jenkins n)) ns) = true).
+  { apply existsb_exists. exists (a, jenkins a). split; [apply in_map_iff; exists a; auto|].
+    apply existsb_exists. exists (b, jenkins b). split; [apply in_map_iff; exists b; auto|].
+    cbn [fst snd]. rewrite Eab, E, N.eqb_refl. reflexivity. }
+  rewrite X in H. discriminate.
+Qed.
+
+(* C14_refines_map: every mode *)
+Theorem refines_map c ops : cfg_ok c -> addr_ok c ops -> inj_on (names_of ops) ->
+  snd (run c ops) = snd (spec_run c ops)
+  /\ rel (names_of ops) (bt (fst (run c ops))) (s_map (fst (spec_run c ops))).
+Proof.
+  intros Hc Ha Hinj.
+  destruct (mode_irrelevant_strip c ops) as [A B]. rewrite B.
+  assert (X := run_from_rel (cfg_off c) (names_of ops) Hc eq_refl Hinj ops (init (cfg_off c)) (mkS [] false)
+                (init_winv (cfg_off c) Hc eq_refl) Ha (fun n H => H)).
+  cbn [s_map s_loaded] in X.
+  assert (R0 : rel (names_of ops) (bt (init (cfg_off c))) []).
+  { unfold rel. cbn. repeat split; try constructor. }
+  specialize (X R0 eq_refl). destruct X as [X1 X2].
+  split; [exact X1|].
+  change (spec_run c ops) with (spec_run_from (max_records (ns_of c)) (mkS [] false) ops).
+  change (spec_run_from (max_records (ns_of (cfg_off c))) (mkS [] false) ops)
+    with (spec_run_from (max_records (ns_of c)) (mkS [] false) ops) in X2.
+  unfold run in *. rewrite <- A in X2.
+  destruct (fst (run_from c (init c) ops)) as [[a1 a2 a3 a4 a5 a6 a7 a8] f n].
+  exact X2.
+Qed.
+
+(* ============================================================================================ *)
+(* 8. capacity, persistence, exact content, refutations                                          *)
+
+(* C14_capacity: an insert into a full node is refused and nothing changes (any mode, any state) *)
+Theorem capacity_refused c w n v :
+  max_records (node_size (bt w)) <= N.of_nat (List.length (recs (bt w))) ->
+  snd (step c w (OInsert n v)) = RErr
+  /\ bt (fst (step c w (OInsert n v))) = bt w
+  /\ fil (fst (step c w (OInsert n v))) = fil w /\ next (fst (step c w (OInsert n v))) = next w.
+Proof.
+  intro H. cbn [step]. unfold insert_record.
+  destruct (find_index (recs (bt w)) (jenkins n) 0); [repeat split|].
+  apply N.leb_le in H. rewrite H. repeat split.
+Qed.
+
+(* C14_persist, byte level: loading what WriteToFile/WriteAt wrote gives the same index, and encoding
+   the loaded index again gives the same bytes *)
+Theorem persist osz s f la ha recv :
+  osz_ok osz -> st_wf s -> la < 256 ^ N.of_nat osz -> la + node_size s <= ha ->
+  exists s',
+    load_from osz recv (write_at (write_at f la (encode_leaf s)) ha (encode_header osz (with_root s la))) ha = LOk s'
+    /\ recs s' = recs s /\ leaf_recs s' = recs s /\ header s' = header (with_root s la) /\ node_size s' = node_size s
+    /\ loaded_hdr s' = ha /\ loaded_leaf s' = la
+    /\ encode_leaf s' = encode_leaf s /\ encode_header osz s' = encode_header osz (with_root s la).
+Proof.
+  intros Ho W Hla Hd. eexists. split; [apply load_after_store; assumption|].
+  destruct W as (W1 & W2 & W3 & W4 & W5 & W6 & W7 & W8 & W9 & W10 & W11 & W12 & W13).
+  cbn [recs leaf_recs header node_size loaded_hdr loaded_leaf with_root]. repeat split.
+  unfold encode_leaf. cbn [leaf_type leaf_recs]. rewrite W11, W12. reflexivity.
+Qed.
+
+(* the invariant under which `persist` applies holds after every history *)
+Theorem reachable_wf c ops : cfg_ok c -> addr_ok c ops -> st_wf (strip_bt (bt (fst (run c ops)))).
+Proof.
+  intros Hc Ha. destruct (mode_irrelevant_strip c ops) as [A _].
+  assert (I : winv (cfg_off c) (fst (run (cfg_off c) ops))).
+  { unfold run. apply run_from_winv; [exact Hc|reflexivity|apply init_winv; [exact Hc|reflexivity]|].
+    unfold init. cbn [next]. exact Ha. }
+  rewrite <- A in I. destruct I as (W & _). exact W.
+Qed.
+
+(* exact content: the records are precisely the images of the live keys *)
+Lemma s_lookup_in n v m : NoDup (map fst m) -> In (n, v) m -> s_lookup n m = Some v.
+Proof.
+  induction m as [|[k x] m IH]; intros Hd Hin; [contradiction|].
+  cbn [map fst] in Hd. inversion Hd as [|a l Hk Hd']; subst. cbn [s_lookup].
+  destruct Hin as [E|Hin].
+  - inversion E; subst. rewrite bytes_eqb_refl. reflexivity.
+  - destruct (bytes_eqb k n) eqn:E; [|apply IH; assumption].
+    apply bytes_eqb_eq in E. subst k. exfalso. apply Hk. apply in_map_iff. exists (n, v). auto.
+Qed.
+
+Lemma key_hashes_nodup U (m : smap) : inj_on U -> NoDup (map fst m) -> (forall k, In k (map fst m) -> In k U) ->
+  NoDup (map (fun kv : bytes * bytes => jenkins (fst kv)) m).
+Proof.
+  intros Hinj. induction m as [|[k x] m IH]; intros Hd HU; [constructor|].
+  cbn [map fst] in *. inversion Hd as [|a l Hk Hd']; subst. constructor.
+  - intro A. apply in_map_iff in A. destruct A as ([k' x'] & E & Hin). cbn [fst] in E.
+    assert (k' = k).
+    { apply Hinj; [apply HU; right; apply in_map_iff; exists (k', x'); auto|apply HU; left; reflexivity|exact E]. }
+    subst k'. apply Hk. apply in_map_iff. exists (k, x'). auto.
+  - apply IH; [exact Hd'|]. intros k' Hk'. apply HU. right. exact Hk'.
+Qed.
+
+Theorem exact_content U s m : inj_on U -> rel U s m -> (forall k, In k (map fst m) -> In k U) ->
+  forall h v, In (h, v) (recs s) <-> exists n, In (n, v) m /\ h = jenkins n.
+Proof.
+  intros Hinj (R1 & R2 & R3 & R4) HU.
+  set (img := map (fun kv : bytes * bytes => (jenkins (fst kv), snd kv)) m).
+  assert (Hincl : incl img (recs s)).
+  { intros [h v] Hin. unfold img in Hin. apply in_map_iff in Hin. destruct Hin as ([n x] & E & Hin).
+    cbn [fst snd] in E. inversion E; subst.
+    apply lookup_rec_in. rewrite R1; [apply s_lookup_in; assumption|].
+    apply HU. apply in_map_iff. exists (n, v). auto. }
+  assert (Hnd : NoDup img).
+  { apply (NoDup_map_inv fst). unfold img. rewrite map_map. cbn [fst].
+    apply (key_hashes_nodup U); assumption. }
+  assert (Hback : incl (recs s) img).
+  { apply NoDup_length_incl; [exact Hnd| |exact Hincl]. unfold img. rewrite map_length, R2. apply Nat.le_refl. }
+  intros h v. split.
+  - intro Hin. apply Hback in Hin. unfold img in Hin. apply in_map_iff in Hin.
+    destruct Hin as ([n x] & E & Hin). cbn [fst snd] in E. inversion E; subst. exists n. auto.
+  - intros (n & Hin & ->). apply Hincl. unfold img. apply in_map_iff. exists (n, v). auto.
+Qed.
+
+(* keys of the specification map are names of the history *)
+Lemma spec_keys cap : forall ops st, 
+  forall k, In k (map fst (s_map (fst (spec_run_from cap st ops)))) -> In k (map fst (s_map st)) \/ In k (names_of ops).
+Proof.
+  induction ops as [|o ops IH]; intros st k; cbn [spec_run_from fst]; [auto|].
+  destruct (spec_step cap st o) as [st1 r] eqn:E.
+  specialize (IH st1 k). destruct (spec_run_from cap st1 ops) as [st2 rs]. cbn [fst] in *.
+  intro H. destruct (IH H) as [A|A]; [|right; unfold names_of; cbn [flat_map]; apply in_or_app; right; exact A].
+  unfold names_of. cbn [flat_map]. rewrite in_app_iff.
+  destruct o as [n v|n v|n|n|n| |]; cbn [spec_step] in E.
+  - destruct (s_lookup n (s_map st)); [inversion E; subst; auto|].
+    destruct (cap <=? _); inversion E; subst; auto. cbn [s_map map fst In] in A.
+    destruct A as [<-|A]; [right; left; left; reflexivity|auto].
+  - destruct (s_lookup n (s_map st)); inversion E; subst; auto. cbn [s_map] in A. rewrite s_update_keys in A. auto.
+  - inversion E; subst; auto.
+  - inversion E; subst; auto.
+  - destruct (s_lookup n (s_map st)); inversion E; subst; auto. cbn [s_map] in A. apply s_remove_keys_incl in A. auto.
+  - inversion E; subst; auto.
+  - destruct (s_loaded st); inversion E; subst; auto.
+Qed.
+
+(* "contains exactly the live keys with their latest values" *)
+Theorem final_content c ops : cfg_ok c -> addr_ok c ops -> inj_on (names_of ops) ->
+  let s := bt (fst (run c ops)) in
+  let m := s_map (fst (spec_run c ops)) in
+  List.length (recs s) = List.length m /\
+  forall h v, In (h, v) (recs s) <-> exists n, In (n, v) m /\ h = jenkins n.
+Proof.
+  intros Hc Ha Hinj. cbv zeta. destruct (refines_map c ops Hc Ha Hinj) as [_ R].
+  split; [destruct R as (_ & R2 & _); exact R2|].
+  apply (exact_content (names_of ops)); [exact Hinj|exact R|].
+  intros k Hk. unfold spec_run in Hk. apply spec_keys in Hk. destruct Hk as [A|A]; [contradiction|exact A].
+Qed.
